@@ -62,6 +62,8 @@ class SimBus:
         self.mode = mode
         self.rng = random.Random(seed)
         self.max_delay = max_delay
+        self._inflight = 0             # threaded mode: frames queued or being delivered (see quiesce)
+        self._inflight_lock = threading.Lock()
         self.min_delay = 0.0           # threaded mode: every delivery takes at least this long (a slow peer / gateway)
         self.lock = threading.RLock()
         self.stations = []
@@ -179,8 +181,9 @@ class SimBus:
             return True
         end = time.time() + timeout
         while time.time() < end:
-            if all(st.idle() for st in self.stations):
-                return True
+            with self._inflight_lock:
+                if self._inflight == 0:
+                    return True
             time.sleep(0.0005)
         return False
 
@@ -208,6 +211,10 @@ class _StationBase:
             self._q = queue.Queue()
             self._thread = threading.Thread(target=self._loop, name=f"simbus-{self.name}", daemon=True)
             self._thread.start()
+        # counted before it is queued and un-counted only after its delivery (including every frame that delivery sent)
+        # has returned: "nothing in flight" is then a fact, not a race between an emptied queue and a busy flag
+        with self.simbus._inflight_lock:
+            self.simbus._inflight += 1
         self._q.put(frame)
 
     def _loop(self):
@@ -232,6 +239,8 @@ class _StationBase:
                     bus.delivered.append((frame.ts, self.name, frame))
             finally:
                 self._busy = False
+                with bus._inflight_lock:
+                    bus._inflight -= 1
 
     def idle(self):
         return self._q is None or (self._q.empty() and not self._busy)
